@@ -4,6 +4,9 @@ For sampled IDs the corner and centre latitudes returned by the library (built f
 formula by CoqInterval, inside Coq, with kernel-checked proofs (Qed):
   corner k of zoom h:  -eps <= |atan(sinh(pi(1-2k/2^h)))*180/pi| - |L| <= 1e-10 + eps      (truncation toward zero at 1e-10 degrees)
   centre of row y:      edge(y+1) < C < edge(y)    (by MercatorR.row_iff_between: the real row of the returned centre is y)
+Every run first certifies 10 forced samples: zoom 35 rows 0, 1, 2^34-1, 2^34, 2^35-2, 2^35-1 and the row just north of the equator at zooms 1, 2, 20, 34.
+A goal that interval arithmetic can neither prove nor refute is "undecided": counted (STAT undecided); BROKEN if it concerns a forced sample or if
+more than 5 % of all goals are undecided.
 Protocol: exit 0 ok; exit 1 + REPLAY <path> when a goal is *refuted* (its negation is proved); other exit = BROKEN."""
 import os, sys, subprocess, json, re, shutil
 from fractions import Fraction
@@ -13,7 +16,7 @@ REPO = os.environ.get("VERIF_REPO", "/repo")
 BUILD = os.environ.get("VERIF_BUILD", "/tmp/vdev/C02")
 TIER = os.environ.get("VERIF_TIER", "quick")
 SEED = os.environ.get("VERIF_SEED", "1") or "1"
-N = int(os.environ.get("C02_LATCERT_N", "40" if TIER == "quick" else "1000"))
+N = int(os.environ.get("C02_LATCERT_N", "30" if TIER == "quick" else "1000"))   # random samples, in addition to the 10 forced edge rows
 ENV = dict(os.environ, GOFLAGS="-mod=mod", GOPROXY="off", GOSUMDB="off", GOTOOLCHAIN="local")
 EPS = "1 / 1000000000000"          # 1e-12 degrees: a few ulps of 85 degrees (1.4e-14 each) with a wide margin
 CUT = "1 / 10000000000"            # 1e-10 degrees
@@ -87,8 +90,9 @@ def main():
     goals = []   # (name, statement, description)
     for idx, line in enumerate(r.stdout.split("\n")):
         t = line.split()
-        if len(t) != 6:
+        if len(t) != 7:
             continue
+        forced = t[6] == "1"
         sid, h, y = t[0], int(t[1]), int(t[2])
         n_, s_, c_ = frac_of_bits(t[3]), frac_of_bits(t[4]), frac_of_bits(t[5])
         if n_ is None or s_ is None or c_ is None:
@@ -98,16 +102,16 @@ def main():
             print("BROKEN non-finite latitude for " + sid)
             print("REPLAY " + p)
             sys.exit(1)
-        goals.append(("north_%d" % idx, goal_corner(n_, h, y), sid, 0))
-        goals.append(("south_%d" % idx, goal_corner(s_, h, y + 1), sid, 0))
-        goals.append(("centre_%d" % idx, goal_centre(c_, h, y), sid, 1))
+        goals.append(("north_%d" % idx, goal_corner(n_, h, y), sid, 0, forced))
+        goals.append(("south_%d" % idx, goal_corner(s_, h, y + 1), sid, 0, forced))
+        goals.append(("centre_%d" % idx, goal_centre(c_, h, y), sid, 1, forced))
     live = list(goals)
     undecided, refuted = [], []
     for attempt in range(12):
         path = os.path.join(d, "LatCert.v")
         with open(path, "w") as f:
             f.write(HEADER)
-            for (nm, st, sid, opt) in live:
+            for (nm, st, sid, opt, forced) in live:
                 f.write("Lemma %s : %s.\nProof. split; interval with (i_prec 120). Qed.\n" % (nm, st))
         rr = coqc(path)
         if rr.returncode == 0:
@@ -132,19 +136,24 @@ def main():
     else:
         broken("too many latitude certificates fail")
     print("STAT samples=%d" % (len(goals) // 3))
-    print("STAT certified=%d" % len(live))
+    print("STAT forced_edge_samples=%d" % (sum(1 for g_ in goals if g_[4]) // 3))
+    print("STAT certified=%d" % (len(live) if not refuted else 0))
+    print("STAT tolerance=corner latitudes: truth cut toward zero by at most 1e-10 deg, +-1e-12 deg (at zoom 35 near 85 deg a row is 9e-10 deg high)")
     print("STAT undecided=%d" % len(undecided))
     print("STAT refuted=%d" % len(refuted))
     if refuted:
-        nm, st, sid, opt = refuted[0]
+        nm, st, sid, opt, forced = refuted[0]
         p = os.path.join(d, "replay-latcert.json")
         json.dump({"property": "C02", "function": "GetPointOnExtendedSpatialId", "args": "( s%s i%d )" % (sid, opt), "kind": "property",
                    "note": "interval arithmetic refutes the latitude returned for this ID: " + nm + " : " + st[:400]}, open(p, "w"), indent=1)
         print("BROKEN latitude certificate refuted (%s) for %s" % (nm, sid))
         print("REPLAY " + p)
         sys.exit(1)
-    if len(undecided) * 5 > len(goals):
-        broken("more than 20%% of the latitude certificates are undecided (%d of %d)" % (len(undecided), len(goals)))
+    fu = [g_ for g_ in undecided if g_[4]]
+    if fu:
+        broken("latitude certificate undecided on a forced edge row: %s for %s" % (fu[0][0], fu[0][2]))
+    if len(undecided) * 20 > len(goals):
+        broken("more than 5%% of the latitude certificates are undecided (%d of %d)" % (len(undecided), len(goals)))
     sys.exit(0)
 
 
